@@ -806,8 +806,9 @@ func c12Configs(ctx *core.Ctx, exec func(csvCase, string, bool)) {
 		"b\nT\nf\n0\n", "b\nTrue\nFALSE\n", "b\nyes\nno\n", "v\n inf\n", "v\nInf\n-inf\nNaN\n", "v\n1.5 \n",
 		"x,y\n1.5,true\n,false\n", "x,y\ntrue,1\n1,0\n", "x,y\n1,\"a\nb\"\n2,\"c\"\"d\"\n", "x,y\r\n1,a\r\n", "x,y\n1,2,3\n", "x,y\n1\n", "e,f\na,1\nb,2\na,\n",
 	}
-	typesAlt := []map[string]string{nil, {"x": "int"}, {"x": "float"}, {"x": "bool"}, {"x": "string"}, {"x": "enum"}, {"x": "string", "y": "enum"}, {"e": "enum", "f": "float"}, {"y": "nope"}, {"zz": "int"}, {"n": "int", "b": "bool", "v": "float"}, {"n": "float", "b": "string", "v": "string"}}
-	enumAlt := []map[string][]string{nil, {"x": {"a", "b", "1", "2", ""}}, {"x": {"q"}}, {"e": {"b", "a"}}, {"y": {"a"}}, {"zz": {"a"}}}
+	// (x0 / m are the names a renamed duplicate and an aliased empty header get: options must be looked up by the FINAL name)
+	typesAlt := []map[string]string{{"x0": "string"}, {"m": "string", "x": "float"}, {"x0": "enum", "x": "string"}, nil, {"x": "int"}, {"x": "float"}, {"x": "bool"}, {"x": "string"}, {"x": "enum"}, {"x": "string", "y": "enum"}, {"e": "enum", "f": "float"}, {"y": "nope"}, {"zz": "int"}, {"n": "int", "b": "bool", "v": "float"}, {"n": "float", "b": "string", "v": "string"}}
+	enumAlt := []map[string][]string{{"x": {}}, {"x0": {"1", "2", "3"}}, nil, {"x": {"a", "b", "1", "2", ""}}, {"x": {"q"}}, {"e": {"b", "a"}}, {"y": {"a"}}, {"zz": {"a"}}}
 	headersAlt := [][]string{nil, {"p", "q"}, {"p"}}
 	for _, doc := range docs {
 		for _, en := range []bool{false, true} {
